@@ -1,7 +1,7 @@
 (** Segment iteration, expiration, one-hop paths: totality (no modelled panic) on every
     accepted byte string and agreement between view and model on encodings. *)
 From Coq Require Import Lia ZifyBool ZifyNat ZifyN.
-From Sci Require Import Common.ListAux StdPath.Model StdPath.Proofs StdPath.ProofsRev StdPath.ProofsEnc.
+From Sci Require Import Common.ListAux StdPath.Model StdPath.Spec StdPath.Proofs StdPath.ProofsRev StdPath.ProofsEnc.
 Local Open Scope N_scope.
 Ltac Zify.zify_post_hook ::= Z.div_mod_to_equations.
 Arguments N.add : simpl never. Arguments N.sub : simpl never. Arguments N.mul : simpl never.
@@ -297,4 +297,44 @@ Proof.
   unfold scion_try_reverse. destruct (view_try_reverse (sp_dp p)) as [b' r] eqn:E.
   destruct r; intros H; inversion H; subst.
   apply view_reverse_err_unchanged in E. subst. now destruct p.
+Qed.
+
+(** * calculate_segment_index meets its specification, on every byte string *)
+Lemma nth_error_map_seq_app {A} (f : nat -> A) n rest k :
+  nth_error (map f (seq 0 n) ++ rest) k = if (k <? n)%nat then Some (f k) else nth_error rest (k - n).
+Proof.
+  destruct (k <? n)%nat eqn:E.
+  - apply Nat.ltb_lt in E. rewrite nth_error_app1 by (now rewrite map_length, seq_length).
+    rewrite nth_error_map, nth_error_nth' with (d := 0%nat) by (now rewrite seq_length).
+    rewrite seq_nth by exact E. reflexivity.
+  - apply Nat.ltb_ge in E. rewrite nth_error_app2 by (now rewrite map_length, seq_length).
+    now rewrite map_length, seq_length.
+Qed.
+
+Lemma calc_seg_index_spec b k : calculate_segment_index b k = sp_seg_index (seg_lens b) k.
+Proof.
+  unfold calculate_segment_index, sp_seg_index, sp_positions, seg_lens.
+  set (a := seg0_len b). set (c := seg1_len b). set (d := seg2_len b).
+  cbn [length seq combine flat_map calc_seg_idx_aux].
+  rewrite !nth_error_map_seq_app.
+  assert (Hb : forall (x y : N) (i j : nat), (x = y <-> i = j) -> (x =? y) = (i =? j)%nat).
+  { intros x y i j H. apply eq_true_iff_eq. rewrite N.eqb_eq, Nat.eqb_eq. exact H. }
+  destruct (k <? 0 + a) eqn:E0.
+  - destruct (N.to_nat k <? N.to_nat a)%nat eqn:F0; [|lia].
+    rewrite (Hb k 0 (N.to_nat k) 0%nat ltac:(lia)), (Hb (k + 1) (0 + a) (S (N.to_nat k)) (N.to_nat a) ltac:(lia)).
+    reflexivity.
+  - destruct (N.to_nat k <? N.to_nat a)%nat eqn:F0; [lia|].
+    destruct (k <? 0 + a + c) eqn:E1.
+    + destruct (N.to_nat k - N.to_nat a <? N.to_nat c)%nat eqn:F1; [|lia].
+      rewrite (Hb k (0 + a) (N.to_nat k - N.to_nat a)%nat 0%nat ltac:(lia)),
+              (Hb (k + 1) (0 + a + c) (S (N.to_nat k - N.to_nat a)) (N.to_nat c) ltac:(lia)).
+      reflexivity.
+    + destruct (N.to_nat k - N.to_nat a <? N.to_nat c)%nat eqn:F1; [lia|].
+      destruct (k <? 0 + a + c + d) eqn:E2.
+      * destruct (N.to_nat k - N.to_nat a - N.to_nat c <? N.to_nat d)%nat eqn:F2; [|lia].
+        rewrite (Hb k (0 + a + c) (N.to_nat k - N.to_nat a - N.to_nat c)%nat 0%nat ltac:(lia)),
+                (Hb (k + 1) (0 + a + c + d) (S (N.to_nat k - N.to_nat a - N.to_nat c)) (N.to_nat d) ltac:(lia)).
+        reflexivity.
+      * destruct (N.to_nat k - N.to_nat a - N.to_nat c <? N.to_nat d)%nat eqn:F2; [lia|].
+        symmetry. apply nth_error_None. cbn. lia.
 Qed.
